@@ -27,4 +27,22 @@ PROPS = {
         "require_counters": ["single_minterm", "collection", "constant", "edge_for_var", "points_evaluated"],
         "assumptions": ASSUME_COMMON,
     },
+    "C04": {
+        "rule": ("cases 0..375 enumerate EXHAUSTIVELY all 16x16 ordered pairs of boolean sets over a 2x2 domain / relations over "
+                 "one binary variable for UNION, INTERSECTION, DIFFERENCE (+ all 16 COMPLEMENTs, + CROSS of all set pairs), one case "
+                 "per assignment of (operand1, operand2, result) to forests drawn from two distinct forest objects per reduction "
+                 "rule, first with cold then with warm compute tables; remaining cases: random non-uniform domains, pools of "
+                 "functions spread over 4 (sets) or 6 (relations) forests with random storage/memory/deletion policies, chains of "
+                 "6-20 operations whose results re-enter the pool, occasional cache clears; every result evaluated everywhere "
+                 "against the pointwise model, operands re-checked (== saved copy and re-evaluated) after each call, forests "
+                 "audited (M1-M3).  non-trivial = exhaustive case, or a random case with a result different from both operands; "
+                 "distinct = hash of shape and result tables"),
+        "passes": {
+            "quick": [P("main", "asan", 376 + 700)],
+            "thorough": [P("main", "asan", 376 + 30000)],
+        },
+        "require_counters": ["exhaustive_set_applies", "exhaustive_rel_applies", "exhaustive_cross_applies", "apply_UNION",
+                             "apply_COMPLEMENT", "apply_CROSS", "distinct_forests_same_rule", "operand_rechecks"],
+        "assumptions": ASSUME_COMMON,
+    },
 }
